@@ -136,6 +136,7 @@ func (w *World) setupPackage(pkg *ssa.Package) {
 			w.globals[g] = &cell
 		}
 	}
+	w.loadEmbeds(pkg)
 }
 
 // runInit executes the package initialiser of pkg (which calls its imports' init first).
@@ -395,6 +396,7 @@ func (w *World) branchV(c *Term, val uint64) bool {
 	w.feasQuery = false
 	switch res {
 	case ResSat:
+		noteFork(c)
 		tr := make([]dec, len(r.taken)+1)
 		copy(tr, r.taken)
 		tr[len(r.taken)] = dec{!side, val, w.fingerprint(c)}
